@@ -504,6 +504,12 @@ def k_cli(run, case):
     documented selection (C01's workload executor and reference pipeline; the pose-selection
     clauses are the ones judged for this property).
     """
+    if case.get("tool") == "traj":
+        # evo_traj with --motion_filter / --downsample on trajectories and reference (C15's executor)
+        from vmon.props import C15
+        C15.k_cli(run, case)
+        run.hit("evo_traj runs with filtering of trajectories and reference judged")
+        return
     from vmon.props import C01
     rec = C01.k_cli(run, case)
     run.hit("evo_ape runs with time cropping judged" if rec else "evo_ape run refused / ambiguous (not judged)")
@@ -523,7 +529,10 @@ def main(run):
             KINDS[kind](run, run.case(kind, i))
     for i in run.mine({"quick": 120, "thorough": 3000}[run.tier]):
         k_cli(run, run.case("cli", i, fmt=["tum", "euroc"][i % 2], force_options=["crop"]))
-    run.need("evo_ape runs with time cropping judged", "downsample: count == min(N, count)", "downsample: evenly spaced by index",
+    for i in run.mine({"quick": 60, "thorough": 1500}[run.tier]):
+        k_cli(run, run.case("cli", 10**6 + i, tool="traj", force={"use_ref": True, "motion_filter": i % 3 != 2, "downsample": i % 3 == 2,
+                                                                  "merge": False}))
+    run.need("evo_traj runs with filtering of trajectories and reference judged", "evo_ape runs with time cropping judged", "downsample: count == min(N, count)", "downsample: evenly spaced by index",
              "downsample: last pose kept", "downsample: N<1 refused",
              "motion filter: kept => threshold reached",
              "motion filter: dropped => no threshold reached", "motion filter: exact-grid cases",
